@@ -25,13 +25,19 @@ pub fn oracle_c03(run: &Run) -> Option<(String, String)> {
     let sp = split_responses(&run.sim.wire, &methods);
     // (a) after a response that announces close / answers a malformed request: silence
     for (k, r) in sp.finals.iter().enumerate() {
-        let parse_error = k >= ids.len() && matches!(r.status, 400 | 431);
+        // a dispatcher-made error response (no service identity) to a malformed request
+        let parse_error = r.header("x-rid").is_none() && matches!(r.status, 400 | 431);
         if !(r.announces_close() || parse_error) {
             continue;
         }
         let what = if parse_error { "an error response to a malformed request" } else { "a response announcing close" };
+        // requests answered before this response
+        let answered = sp.finals[..k].iter().filter(|x| x.header("x-rid").is_some()).count();
+        if parse_error && ids.len() > answered {
+            return Some(("dispatch-after-parse-error".into(), format!("response #{k} is {what}, yet request {} was dispatched afterwards", ids[answered])));
+        }
         if ids.len() > k + 1 {
-            return Some(("dispatch-after-close".into(), format!("response #{k} is {what}, yet request {} was dispatched afterwards", ids[k + 1])));
+            return Some((if parse_error { "dispatch-after-parse-error" } else { "dispatch-after-close" }.into(), format!("response #{k} is {what}, yet request {} was dispatched afterwards", ids[k + 1])));
         }
         if !r.complete {
             break;
@@ -41,7 +47,7 @@ pub fn oracle_c03(run: &Run) -> Option<(String, String)> {
                 // the body of a 304 (C02's known finding body-after-304), not a new message
                 return Some(("body-after-304".into(), format!("response #{k} (304, {what}) is followed by {} body bytes", run.sim.wire.len() - r.end)));
             }
-            return Some(("bytes-after-close".into(), format!("response #{k} is {what}, yet {} more bytes were written", run.sim.wire.len() - r.end)));
+            return Some((if parse_error { "bytes-after-parse-error" } else { "bytes-after-close" }.into(), format!("response #{k} is {what}, yet {} more bytes were written", run.sim.wire.len() - r.end)));
         }
         if run.sim.done == "pending" && !case.cfg.dt {
             // the connection must actually be closed by the server (with a disconnect timeout the
